@@ -1,5 +1,5 @@
 (* InvBid: preservation of the bid-side invariant (exact quote/base relation, pro-rata fee held). *)
-From ATS Require Import Prelude Dec DecFacts Uuid Semver Types Contract Tactics Spec ExactFacts Inv InvAsk BidFacts.
+From ATS Require Import Prelude Dec DecFacts DivFacts Uuid Semver Types Contract Tactics Spec ExactFacts Inv InvAsk BidFacts ProRata.
 Ltac Zify.zify_post_hook ::= Z.div_mod_to_equations.
 
 (* the product formed for n units at price p carries the exact value (outside the class K_inexact) *)
@@ -216,31 +216,35 @@ Proof.
   exists keep. repeat split; auto. destruct (N.ltb_spec 0 (held b - keep)); cbn [opt_amt]; lia.
 Qed.
 
-(* side conditions of a match step outside the known classes: the products it forms are exact, and the fee due
-   grows with the amount spent (no counterexample to the latter is known; see DESIGN.md) *)
+(* the fee released by a fill grows with the amount spent (ProRata.calculate_fee_mono) for every well-formed bid *)
+Lemma bid_ok_fee_mono c k b :
+  bid_ok c k b -> forall g1 g2 f1 f2, calculate_fee b g1 = Ok f1 -> calculate_fee b g2 = Ok f2 -> g1 <= g2 ->
+  opt_amt f1 <= opt_amt f2.
+Proof.
+  intros (_ & _ & _ & _ & Hab & _ & _ & Hq96 & (p & (_ & _ & Hmnz & _) & HQ & _) & Hfee) g1 g2 f1 f2 E1 E2 Hg.
+  eapply calculate_fee_mono; eauto.
+  - destruct (N.eq_dec (c_amt (b_quote b)) 0) as [Hz|]; [|lia]. rewrite Hz in HQ. nia.
+  - intros f Hf. rewrite Hf in Hfee. destruct Hfee as (_ & _ & ? & _). assumption.
+Qed.
+
+(* side condition of a match step outside the known classes: the products it forms are exact *)
 Definition clean_match (st : state) (bid_id price : string) (size : N) : Prop :=
   forall b bp xp, lookup bid_id (st_bids st) = Some (SlotV3 b) -> dec_parse (b_price b) = Some bp ->
     dec_parse price = Some xp ->
     (forall t, mul_size xp size = Ok t -> exact_at xp size t) /\
-    (dec_ltb xp bp = true -> forall t, mul_size bp size = Ok t -> exact_at bp size t) /\
-    (forall g1 g2 f1 f2, calculate_fee b g1 = Ok f1 -> calculate_fee b g2 = Ok f2 -> g1 <= g2 -> opt_amt f1 <= opt_amt f2).
+    (dec_ltb xp bp = true -> forall t, mul_size bp size = Ok t -> exact_at bp size t).
 
-(* value-level sufficient conditions: the class K_inexact is contained in "mantissa(price) * size >= 2^96" *)
+(* value-level sufficient condition: the class K_inexact is contained in "mantissa(price) * size >= 2^96" *)
 Definition small_products (st : state) (bid_id price : string) (size : N) : Prop :=
   forall b bp xp, lookup bid_id (st_bids st) = Some (SlotV3 b) -> dec_parse (b_price b) = Some bp ->
     dec_parse price = Some xp -> d_mant xp * size < B96 /\ d_mant bp * size < B96.
-Definition fee_monotone (st : state) (bid_id : string) : Prop :=
-  forall b, lookup bid_id (st_bids st) = Some (SlotV3 b) ->
-    forall g1 g2 f1 f2, calculate_fee b g1 = Ok f1 -> calculate_fee b g2 = Ok f2 -> g1 <= g2 -> opt_amt f1 <= opt_amt f2.
-Lemma clean_match_intro st bid_id price size :
-  small_products st bid_id price size -> fee_monotone st bid_id -> clean_match st bid_id price size.
+Lemma clean_match_intro st bid_id price size : small_products st bid_id price size -> clean_match st bid_id price size.
 Proof.
-  intros Hsm Hmono b bp xp Hl Hbp Hxp. destruct (Hsm b bp xp Hl Hbp Hxp) as [H1 H2].
+  intros Hsm b bp xp Hl Hbp Hxp. destruct (Hsm b bp xp Hl Hbp Hxp) as [H1 H2].
   pose proof (dec_parse_wf _ _ Hbp) as [Hsb _]. pose proof (dec_parse_wf _ _ Hxp) as [Hsx _].
-  split; [|split].
+  split.
   - intros t Ht. apply mul_size_inv in Ht as [_ Ht]. eapply dec_mul_small_exact; eauto.
   - intros _ t Ht. apply mul_size_inv in Ht as [_ Ht]. eapply dec_mul_small_exact; eauto.
-  - apply Hmono. exact Hl.
 Qed.
 
 Lemma sub_int_value og_d gross_d diff og gross refund :
@@ -278,7 +282,7 @@ Proof.
     intros c' Hc'. rewrite Hc in Hc'. injection Hc' as <-.
     pose proof Hok as (_ & _ & _ & _ & _ & _ & _ & _ & (p0 & Hp0 & HQ & HU) & Hfee).
     assert (Hpp : p0 = bp) by (destruct Hp0 as [Hx _]; congruence). subst p0.
-    destruct (Hclean b bp xp Hlb Hbp Hxp) as (Hex1 & Hex2 & Hmono).
+    destruct (Hclean b bp xp Hlb Hbp Hxp) as (Hex1 & Hex2). pose proof (bid_ok_fee_mono _ _ _ Hok) as Hmono.
     assert (Pbp : positive_dec bp) by (destruct Hp0 as (_ & ? & ? & _); split; assumption).
     assert (Pap : positive_dec ap) by (destruct Hap0 as (_ & ? & ? & _); split; assumption).
     apply remaining_base_ok in Hrb as [-> Hab]. apply accumulate_eq in Hfill.
